@@ -570,7 +570,8 @@ class HDPublicKey:
         return self.point.p2wpkh_script()
 
     def p2sh_p2wpkh_script(self):
-        return self.point.p2sh_p2wpkh_script()
+        # the p2sh scriptPubKey that commits to the p2wpkh redeem script
+        return self.point.p2sh_p2wpkh_redeem_script().script_pubkey()
 
     def address(self):
         return self.point.address(network=self.network)
